@@ -89,7 +89,11 @@ func H_c11p(p []int) {
 		f0 := catchFmt(func() string { return fmt.Sprintf(format, panicker(kind, ""), "t‹", blankI(0)) })
 		vAssert(!f.panicked, "C11/fmt-contains-too")
 		vAssert(bytesEq(strip(out), esc([]byte(f.out))), "C11/text-as-fmt")
-		if wf && kind != 6 && containsBytes([]byte(f0.out), []byte("PANIC=")) {
+		if kind == 6 {
+			// partial output through the fmt.State is unsafe, the report after it is not
+			f0 = catchFmt(func() string { return fmt.Sprintf(format, panFmt{""}, "t‹", blankI(0)) })
+		}
+		if wf && containsBytes([]byte(f0.out), []byte("PANIC=")) {
 			// with envelopes deleted only the payload (and the unsafe 5) is gone
 			vAssert(bytesEq(delEnv(out), esc([]byte(f0.out))), "C11/only-payload-enveloped")
 		}
